@@ -247,10 +247,23 @@ func genC14(t *core.Tape, tier string) *Scenario {
 					kept = []COp{{Op: "closereq"}}
 				} else {
 					sc.Notes["cancel_without_closerequest"]++
+					if !p.Split && t.Bool(1, 3, "cancel.then.close") {
+						// cancel(); CloseResponse() - no Receive in between that
+						// would notice the finished context
+						rcv = []COp{{Op: "closeresp"}}
+						sc.Notes["cancel_then_closeresponse"]++
+					}
 				}
 				rest = kept
 			}
-			sends = append(sends[:cancelAt:cancelAt], append([]COp{{Op: "cancel"}}, rest...)...)
+			pre := []COp{{Op: "cancel"}}
+			if !p.Split && cancelAt > 0 && len(p.HProg) > 0 && p.HProg[0].Op == "send" && t.Bool(1, 2, "recv.before.cancel") {
+				// the response has certainly begun when the context is cancelled
+				// (the handler sends before it receives, so this Receive returns)
+				pre = []COp{{Op: "recv"}, {Op: "cancel"}}
+				sc.Notes["receive_before_cancel"]++
+			}
+			sends = append(sends[:cancelAt:cancelAt], append(pre, rest...)...)
 		}
 		if p.Split {
 			p.CProg, p.CProgRcv = sends, rcv
